@@ -50,6 +50,8 @@ def register(eng):
     @model("Deref::deref@BoundedBytes", "Deref::deref@Bytes", "AsRef::as_ref@Bytes", "Bytes::as_slice", "Deref::deref@Hash", "AsRef::as_ref@Hash")
     def _(eng, a, c):
         x = deref(a[0])
+        if isinstance(x, Opaque):
+            return Opaque("bytes_of", [x])
         v = x.fields[0]
         return SliceV(v, 0, len(v.items)) if isinstance(v, VecM) else v
 
@@ -245,7 +247,7 @@ def register(eng):
 
     def _script_data(eng, ws, lv):
         # pallas contract: Some(..) iff the witness set has redeemers (or plutus data)
-        names = eng.foreign_fields.get("WitnessSet") or []
+        names = eng.foreign_fields.get("WitnessSet") or (eng.tdef("WitnessSet", "struct")[1] or (None, None, []))[2]
         red = None
         if "redeemer" in names:
             red = deref(ws.fields[names.index("redeemer")])
